@@ -3,8 +3,12 @@
    Source.Value        -> source_value   (read, decode, checksum recorded only
                                           after a successful decode, unchanged-
                                           checksum suppression)
-   WatchingSource.Watch-> init_state     (the three initial fsnotify watches)
-   watchLoop           -> step / reload  (one pass of the `select` loop)
+   WatchingSource.Watch-> init_state     (the three initial fsnotify watches,
+                                          a token in the recheck channel)
+   watchLoop           -> step = select + read_phase (Source.Value) +
+                          cont_phase (not-exist branch / EvalSymlinks, re-add
+                          of the file watch, updateDirWatches, recheck token);
+                          step_read / cont run the two halves separately
    updateDirWatches    -> update_dir_watches  (the repaired code) and
                           update_dir_watches_prefix (the pinned tree, finding 12)
 
@@ -30,7 +34,7 @@ Open Scope N_scope.
 Definition path := list str.
 Definition path_eqb : path -> path -> bool := strs_eqb.
 Definition dir (p : path) : path := removelast p.          (* filepath.Dir *)
-Definition k8s_link : str := [46; 46; 100; 105; 114].   (* "..dir" *)                   (* k8sIntermediateSymlinkDir *)
+Definition k8s_link : str := [46; 46; 100; 105; 114].      (* "..dir": k8sIntermediateSymlinkDir *)
 
 Definition content := N.
 Definition value := N.
